@@ -28,7 +28,9 @@ impl<const T: JoinType> MergeJoinExecutor<T> {
         loop {
             match (&left_group, &right_group) {
                 // cross join if left key == right key
-                (Some((lkey, lchunk)), Some((rkey, rchunk))) if lkey == rkey => {
+                (Some((lkey, lchunk)), Some((rkey, rchunk)))
+                    if lkey == rkey && !lkey.iter().any(|k| k.is_null()) =>
+                {
                     for left_row in lchunk {
                         for right_row in rchunk {
                             let values = left_row.iter().chain(right_row.iter()).cloned();
@@ -41,8 +43,9 @@ impl<const T: JoinType> MergeJoinExecutor<T> {
                     right_group = right_groups.next().await.transpose()?;
                 }
                 // left join if left key < right key or right is finished
+                // (NULL keys are equal in sort order but never match: emit the left side first)
                 (Some((lkey, lchunk)), _)
-                    if right_group.as_ref().is_none_or(|(rkey, _)| lkey < rkey) =>
+                    if right_group.as_ref().is_none_or(|(rkey, _)| lkey <= rkey) =>
                 {
                     if T == JoinType::LeftOuter || T == JoinType::FullOuter {
                         for left_row in lchunk {
